@@ -80,9 +80,12 @@ func (p *progFacts) errSendBefore(f *ssa.Function, awaited *ssa.MakeChan, errs m
 }
 
 // checkWaits applies B3 to every function that creates an error channel.
-func checkWaits(c *core.Ctx, p *progFacts, rule string) (nSelect, nBare int) {
+func checkWaits(c *core.Ctx, p *progFacts, rule string, pkgs ...string) (nSelect, nBare int) {
 	for _, f := range p.funcs {
 		if f.Parent() != nil || isDeprecatedIndels(f) {
+			continue
+		}
+		if len(pkgs) > 0 && (f.Pkg == nil || !containsStr(pkgs, c.RelOf(f.Pkg.Pkg))) {
 			continue
 		}
 		errChans := map[*ssa.MakeChan]bool{}
